@@ -181,6 +181,10 @@ func (g *Gen) mathBin(op, a, b string) string {
 
 // typeRange returns an assumption that Int-mode value v lies in the range of Go type t ("true" otherwise).
 func (g *Gen) typeRange(v string, t types.Type) string {
+	if isString(t) {
+		z := g.idxConst(0)
+		return and(g.idxLe(z, "(str_len "+v+")"), g.idxLe(z, "(str_off "+v+")"), g.idxLe("(str_len "+v+")", g.idxConst(1<<40)), g.idxLe("(str_off "+v+")", g.idxConst(1<<40)))
+	}
 	switch u := t.Underlying().(type) {
 	case *types.Basic:
 		if g.mode != ModeInt {
@@ -418,6 +422,10 @@ func (g *Gen) load(st *State, a *Addr, t types.Type) string {
 }
 
 func (g *Gen) store(st *State, a *Addr, nv string) {
+	set := st.heap.set
+	if a.cell == nil && g.freshRefs[a.ref] {
+		set = st.heap.setFresh
+	}
 	if a.cell != nil {
 		old, ok := st.cells[a.cell]
 		if !ok && len(a.path) > 0 {
@@ -430,7 +438,7 @@ func (g *Gen) store(st *State, a *Addr, nv string) {
 		key, srt := g.elemKey(a.root)
 		h := st.heap.get(g, key)
 		arr := "(select " + h + " " + a.ref + ")"
-		st.heap.set(key, g.define("he", srt, "(store "+h+" "+a.ref+" "+g.pathSet(arr, a.path, nv)+")"))
+		set(key, g.define("he", srt, "(store "+h+" "+a.ref+" "+g.pathSet(arr, a.path, nv)+")"))
 		return
 	}
 	if stt, ok := a.root.Underlying().(*types.Struct); ok {
@@ -438,20 +446,20 @@ func (g *Gen) store(st *State, a *Addr, nv string) {
 			for i := 0; i < stt.NumFields(); i++ {
 				key, srt := g.fieldKey(a.root, i)
 				h := st.heap.get(g, key)
-				st.heap.set(key, g.define("hf", srt, "(store "+h+" "+a.ref+" "+g.S.structField(a.root, nv, i)+")"))
+				set(key, g.define("hf", srt, "(store "+h+" "+a.ref+" "+g.S.structField(a.root, nv, i)+")"))
 			}
 			return
 		}
 		key, srt := g.fieldKey(a.root, a.path[0].field)
 		h := st.heap.get(g, key)
 		cur := "(select " + h + " " + a.ref + ")"
-		st.heap.set(key, g.define("hf", srt, "(store "+h+" "+a.ref+" "+g.pathSet(cur, a.path[1:], nv)+")"))
+		set(key, g.define("hf", srt, "(store "+h+" "+a.ref+" "+g.pathSet(cur, a.path[1:], nv)+")"))
 		return
 	}
 	key, srt := g.ptrKey(a.root)
 	h := st.heap.get(g, key)
 	cur := "(select " + h + " " + a.ref + ")"
-	st.heap.set(key, g.define("hp", srt, "(store "+h+" "+a.ref+" "+g.pathSet(cur, a.path, nv)+")"))
+	set(key, g.define("hp", srt, "(store "+h+" "+a.ref+" "+g.pathSet(cur, a.path, nv)+")"))
 }
 
 // addrOfPtr turns a pointer value into an address of its pointee.
